@@ -554,6 +554,41 @@ fn scenario_close() -> Option<Finding> {
     if let Some(f) = check(&be2, "database dropped before its write transaction") {
         return Some(f);
     }
+    // database dropped while a write transaction is live AND the backend has failed during it
+    let be2f = Rec::with_image(be.st.lock().unwrap().live.clone());
+    {
+        let db = Database::builder().set_cache_size(0).create_with_backend(be2f.clone()).ok()?;
+        let txn = db.begin_write().ok()?;
+        {
+            let mut st = be2f.st.lock().unwrap();
+            st.fail_at = Some(st.calls);
+            st.fail_forever = true;
+        }
+        {
+            // large inserts force backend traffic (growth, evictions) so that the failure is hit
+            if let Ok(mut t) = txn.open_table(T1) {
+                for i in 0..400u64 {
+                    if t.insert(&(900_000 + i), vec![7u8; 3000].as_slice()).is_err() {
+                        break;
+                    }
+                }
+            }
+        }
+        drop(db);
+        {
+            let st = be2f.st.lock().unwrap();
+            if st.closes != 0 {
+                return Some(Finding { what: "backend closed by Database::drop while a (failed) write transaction is still live".into(), detail: format!("close calls: {}", st.closes) });
+            }
+        }
+        drop(txn);
+    }
+    {
+        let st = be2f.st.lock().unwrap();
+        if st.closes != 1 || st.after_close != 0 {
+            return Some(Finding { what: "backend contract violated (database dropped before a failed live write transaction)".into(), detail: format!("close calls: {}, calls after close: {}", st.closes, st.after_close) });
+        }
+    }
     // failing open (garbage file)
     let be3 = Rec::with_image(vec![0x55; 8192]);
     let r = Database::builder().create_with_backend(be3.clone());
@@ -627,7 +662,14 @@ fn scenario_alter() -> Option<Finding> {
                     Err(_) => return Ok(None), // damage reported at open
                 };
                 match db.check_integrity() {
-                    Ok(clean) => Ok(Some((clean, snapshot(&db)))),
+                    Ok(clean) => {
+                        // reading the certified database must not panic either
+                        let snap = match catch_unwind(AssertUnwindSafe(|| snapshot(&db))) {
+                            Ok(s) => s,
+                            Err(_) => Err("reading the database panicked".to_string()),
+                        };
+                        Ok(Some((clean, snap)))
+                    }
                     Err(_) => Ok(None),
                 }
             }));
